@@ -13,6 +13,14 @@ pub enum Sink {
     String_,
 }
 impl Sink {
+    pub fn from_name(n: &str) -> Sink {
+        match n {
+            "utf8" => Sink::Utf8,
+            "utf16" => Sink::Utf16,
+            "str" => Sink::Str,
+            _ => Sink::String_,
+        }
+    }
     pub fn name(self) -> &'static str {
         match self {
             Sink::Utf8 => "utf8",
@@ -38,6 +46,13 @@ pub enum Mode {
     Off,
 }
 impl Mode {
+    pub fn from_name(n: &str) -> Mode {
+        match n {
+            "sniff" => Mode::Sniff,
+            "remove" => Mode::Remove,
+            _ => Mode::Off,
+        }
+    }
     pub fn name(self) -> &'static str {
         match self {
             Mode::Sniff => "sniff",
@@ -239,6 +254,7 @@ pub enum CapSpec {
     Query(usize), // queried value + extra
 }
 
+#[derive(Clone)]
 pub struct HistCfg {
     pub enc: &'static Encoding,
     pub mode: Mode,
@@ -372,6 +388,37 @@ impl<'a> Hist<'a> {
     }
 }
 
+/// apply command-line overrides to a history configuration
+pub fn overridden(cfg: &HistCfg) -> HistCfg {
+    let o = ov();
+    let mut c = cfg.clone();
+    let r = rot();
+    if let Some(s) = &o.sinks {
+        c.sink = Sink::from_name(&s[r % s.len()]);
+    }
+    if let Some(m) = &o.modes {
+        c.mode = Mode::from_name(&m[(r / 3) % m.len()]);
+    }
+    if let Some(x) = o.repl {
+        c.repl = x;
+    }
+    if o.twins {
+        c.twins = true;
+    }
+    if o.latin1 {
+        c.latin1 = 1;
+    }
+    c
+}
+pub fn cap_override(sink: Sink, c: CapSpec) -> CapSpec {
+    match ov().cap.as_deref() {
+        Some("min") => CapSpec::Fixed(sink.min_cap()),
+        Some("min1") => CapSpec::Fixed(sink.min_cap() + 1),
+        Some("query") => CapSpec::Query(0),
+        _ => c,
+    }
+}
+
 /// The documented caller loop over a chunked stream: for each chunk keep calling, re-pushing the
 /// unconsumed input, until InputEmpty.  `caps(i)` gives the capacity of the i-th call.
 pub fn run_chunked(
@@ -383,6 +430,25 @@ pub fn run_chunked(
     empty_last: bool,
     reuse_after_done: bool,
 ) {
+    if thinned() {
+        return;
+    }
+    let old_min = cfg.sink.min_cap();
+    let cfg = &overridden(cfg);
+    let sink = cfg.sink;
+    let delta = sink.min_cap() - old_min.min(sink.min_cap());
+    let shrink = old_min - sink.min_cap().min(old_min);
+    let caps0 = caps;
+    // capacities are meant relative to the sink's documented minimum: keep that when the sink is overridden
+    let mut caps = |i: usize| {
+        cap_override(
+            sink,
+            match caps0(i) {
+                CapSpec::Fixed(c) => CapSpec::Fixed(c + delta - shrink.min(c)),
+                q => q,
+            },
+        )
+    };
     let mut h = Hist::begin(sh, cfg, true);
     let limit = 8 * stream.len() + 64;
     let n = stream.len();
@@ -433,6 +499,10 @@ pub fn run_chunked(
 
 /// Random driver: arbitrary re-cuts (shorter, longer, empty), capacities, queries; ends with `last`.
 pub fn run_random(sh: &mut Shards, cfg: &HistCfg, stream: &[u8], rng: &mut Rng, maxchunk: usize, capmax: usize) {
+    if thinned() {
+        return;
+    }
+    let cfg = &overridden(cfg); // capacities below are derived from the overridden sink's minimum
     let mut h = Hist::begin(sh, cfg, false);
     let n = stream.len();
     let limit = 8 * n + 64;
@@ -454,6 +524,7 @@ pub fn run_random(sh: &mut Shards, cfg: &HistCfg, stream: &[u8], rng: &mut Rng, 
             2 => CapSpec::Fixed(minc + capmax + 64),
             _ => CapSpec::Fixed(minc + rng.below(capmax + 1)),
         };
+        let c = cap_override(cfg.sink, c);
         let o = h.step(sh, stream, end, c, last);
         if h.dead {
             return;
